@@ -908,6 +908,10 @@ class OneToOne(dict):
         for key, val in keys_vals:
             self[key] = val
 
+    def __ior__(self, other):
+        self.update(other)
+        return self
+
     def __repr__(self):
         cn = self.__class__.__name__
         dict_repr = dict.__repr__(self)
